@@ -308,7 +308,7 @@ Lemma newcm_read : forall old g lm o f k,
   g = f /\ lm = MShared /\ (o = OOpenR (Some k) \/ (exists l w, o = OLook l w) /\ old = CRead f k).
 Proof.
   intros old g lm o f k H. destruct lm; cbn [newcm] in H; try discriminate H.
-  destruct o as [| |[k0|]| | |l w]; try discriminate H.
+  destruct o as [| |[k0|]| | |l w| | ]; try discriminate H.
   - inversion H; subst. repeat split. left. reflexivity.
   - destruct old; try discriminate H. destruct (N.eqb_spec f0 g); [|discriminate H].
     inversion H; subst. repeat split. right. split; [exists l, w; reflexivity | reflexivity].
@@ -464,17 +464,19 @@ Proof.
   assert (W0 : wf1 th0) by (apply HW; cbn [mths]; eapply nthN_In; eassumption).
   assert (N1 : nthN t0 (updN t0 th1 l) = Some th1) by (eapply nthN_updN_same; eassumption).
   assert (NC : tpc th1 <> CrashedL).
-  { destruct HI' as [_ HN]. apply HN. cbn [mths]. eapply nthN_In. exact N1. }
+  { destruct HI' as [_ [HN _]]. apply HN. cbn [mths]. eapply nthN_In. exact N1. }
+  assert (NU : nou_pc (tpc th0) = true).
+  { destruct HI as [_ [_ HU]]. destruct (HU th0) as (_ & X & _); [cbn [mths]; eapply nthN_In; eassumption | exact X]. }
   split.
   - intros th I. cbn [mths] in I.
     destruct (nthN_split _ _ _ _ N0) as (l1 & l2 & E1 & E2 & _). rewrite E2 in I. apply in_app_or in I.
     destruct I as [I|[I|I]].
     + apply HW. cbn [mths]. rewrite E1. apply in_or_app. left. exact I.
-    + subst th. eapply tstep_wf1; eassumption.
+    + subst th. eapply tstep_wf1; [exact NU | exact W0 | exact TS].
     + apply HW. cbn [mths]. rewrite E1. apply in_or_app. right. right. exact I.
   - intros t th f k a' Nt R Ha'. cbn [msh mths] in *.
     assert (EX : exists a, nthN f (anchors sh) = Some a).
-    { destruct (tstep_anchor_effect _ _ _ _ _ TS) as [[An _]|(g & p & a0 & a1 & sh2 & r & evs2 & _ & _ & _ & An & _)];
+    { destruct (tstep_anchor_effect _ _ _ _ _ NU TS) as [[An _]|(g & p & a0 & a1 & sh2 & r & evs2 & _ & _ & _ & An & _)];
         rewrite An in Ha'; [eauto | eapply nthN_updN_inv; eassumption]. }
     destruct EX as [a Ha].
     assert (KEEP : forall i thi, nthN i l = Some thi -> isReader thi f k -> akey a' = k).
@@ -485,7 +487,7 @@ Proof.
       eapply tstep_protected; try eassumption. left. exact Q. }
     destruct (N.eq_dec t t0) as [->|D].
     + rewrite N1 in Nt. inversion Nt; subst th.
-      destruct (tstep_reader _ _ _ _ _ _ _ _ _ W0 TS NC R Ha Ha') as [R0|K1]; [|exact K1].
+      destruct (tstep_reader _ _ _ _ _ _ _ _ _ NU W0 TS NC R Ha Ha') as [R0|K1]; [|exact K1].
       eapply KEEP; eassumption.
     + rewrite nthN_updN_other in Nt by congruence. eapply KEEP; eassumption.
 Qed.
